@@ -39,6 +39,7 @@ void vf_net_pending_accept(int fd);                 // a connection waits on lis
 void vf_net_script_send(int fd, int kind, size_t n);    // next send(): 0 would-block, 1 error, 2 returns 0, 3 accepts n bytes
 void vf_clock_advance_ms(uint64_t ms);
 uint64_t vf_clock_ns(void);
+unsigned vf_cond_waiters(void);      // model environment only: threads currently blocked on a condition variable
 }
 // directory-tree model controls (engine only)
 extern "C" {
